@@ -66,6 +66,7 @@ type Result struct {
 	Unknown       int               `json:"unknown"`
 	SolverErrors  []string          `json:"solver_errors,omitempty"`
 	SolverSeconds float64           `json:"solver_s"`
+	AssertsHeld   int64             `json:"asserts_held"` // vAssert evaluations on completed paths
 	Obligations   int64             `json:"obligations"`
 	Discharged    int64             `json:"discharged"`
 	Decisions     int64             `json:"decisions"`
@@ -279,6 +280,9 @@ func (e *Engine) finish(rec PathRecord, ps *pathState) {
 	e.res.Paths++
 	atomic.AddInt64(&e.decisions, int64(ps.nDecide))
 	atomic.AddInt64(&e.steps, ps.steps)
+	if rec.Outcome == "ok" {
+		e.res.AssertsHeld += ps.asserts
+	}
 	if len(rec.Trail) > e.res.MaxTrail {
 		e.res.MaxTrail = len(rec.Trail)
 	}
